@@ -93,6 +93,66 @@ def verifier_rows(rows):
     return out
 
 
+BITMAP = {"ShlII": "Shl", "ShrII": "Shr", "AndII": "BitAnd", "OrII": "BitOr", "XorII": "BitXor"}
+
+
+def _op2group(groups):
+    m = {}
+    for g, lst in groups.items():
+        for o in lst:
+            m[o] = g
+    return m
+
+
+def pairs(repo, groups):
+    """(typed or guarded opcode, generic twin, operand mode) by opcode *name*"""
+    ops = opcode_table(repo)
+    byname = {v: k for k, v in ops.items()}
+    o2g = _op2group(groups)
+    out = []
+    for num in sorted(ops):
+        name = ops[num]
+        base, mode = None, None
+        if name in BITMAP:
+            base, mode = BITMAP[name], "MODE_INTS"
+        elif name.endswith("IIG"):
+            base, mode = name[:-3], "MODE_ANY"
+        elif name.endswith("FFG"):
+            base, mode = name[:-3], "MODE_PROMOTED"
+        elif name.endswith("II"):
+            base, mode = name[:-2], "MODE_INTS"
+        elif name.endswith("FF"):
+            base, mode = name[:-2], "MODE_FLOATS"
+        if base is None or base not in byname:
+            continue
+        heavy = base in ("Mul", "Div", "Mod")
+        if heavy and mode in ("MODE_FLOATS", "MODE_PROMOTED"):
+            continue            # float * / % : CBMC's float multiplier/divider/fmod do not finish (stated outside the claim)
+        if heavy and mode == "MODE_ANY":
+            mode = "MODE_NOFLOAT"
+        if base in ("Eq", "Ne"):
+            mode = {"MODE_ANY": "MODE_NONAN", "MODE_PROMOTED": "MODE_PROMOTED_NONAN", "MODE_FLOATS": None}.get(mode, mode)
+            if mode is None:
+                continue        # EqFF/NeFF on floats vs generic Eq/Ne differ exactly on NaN operands (see DESIGN C06)
+        g = byname[base]
+        out.append({"harness": "c06_pair_%03d_%s_vs_%s" % (num, name.lower(), base.lower()), "top": num, "tname": name,
+                    "tgroup": o2g.get(num, "invalid"), "gop": g, "gname": base, "ggroup": o2g.get(g, "invalid"), "mode": mode})
+    return out
+
+
+def ref_rows(repo, groups):
+    ops = opcode_table(repo)
+    byname = {v: k for k, v in ops.items()}
+    o2g = _op2group(groups)
+    out = []
+    for name, small in (("Add", False), ("Sub", False), ("Mul", True), ("Div", True), ("Mod", True), ("Lt", False), ("Le", False),
+                        ("Gt", False), ("Ge", False), ("Shl", False), ("Shr", False), ("BitAnd", False), ("BitOr", False), ("BitXor", False)):
+        if name in byname:
+            n = byname[name]
+            out.append({"harness": "c02_ref_%03d_%s" % (n, name.lower()), "op": n, "name": name, "group": o2g.get(n, "invalid"), "small": small})
+    return out
+
+
 def generate(repo, groups):
     rows = table(repo, groups)
     lines = ["// GENERATED per-opcode harnesses (lib/opgen.py) from bytecode/src/bytecode/opcode.rs + run.rs dispatch table\n"]
@@ -100,4 +160,10 @@ def generate(repo, groups):
     lines.append("pub(crate) const VERIF_VALID_OPCODES: [bool; 256] = [%s];\n" % ", ".join("true" if i in ops else "false" for i in range(256)))
     for r in rows:
         lines.append("c04_step!(%s, step_%s, %d, %s, %s);\n" % (r["harness"], r["group"], r["op"], POOL[r["pool"]], low16(r["op"])))
-    return {"text": "".join(lines), "count": len(rows), "rows": rows}
+    prs = pairs(repo, groups)
+    for p in prs:
+        lines.append("c06_pair!(%s, step_%s, %d, step_%s, %d, %s);\n" % (p["harness"], p["tgroup"], p["top"], p["ggroup"], p["gop"], p["mode"]))
+    refs = ref_rows(repo, groups)
+    for r in refs:
+        lines.append("c02_ref!(%s, step_%s, %d, %s);\n" % (r["harness"], r["group"], r["op"], "true" if r["small"] else "false"))
+    return {"text": "".join(lines), "count": len(rows) + len(prs) + len(refs), "rows": rows, "pairs": prs, "refs": refs}
